@@ -9,12 +9,14 @@ import (
 	erpc "github.com/henrylee2cn/erpc/v6"
 	"github.com/henrylee2cn/erpc/v6/mixer/websocket/jsonSubProto"
 	"github.com/henrylee2cn/erpc/v6/mixer/websocket/pbSubProto"
+	"github.com/henrylee2cn/erpc/v6/proto/thriftproto"
 	"github.com/henrylee2cn/erpc/v6/socket"
 )
 
 func init() {
 	extraProtos["wsjson"] = jsonSubProto.NewJSONSubProtoFunc()
 	extraProtos["wspb"] = pbSubProto.NewPbSubProtoFunc()
+	extraProtos["thriftstruct"] = thriftproto.NewStructProtoFunc()
 }
 
 var extraProtos = map[string]erpc.ProtoFunc{}
@@ -38,6 +40,7 @@ type wireMsg struct {
 	codec  byte
 	body   []byte
 	pipe   []byte
+	tdoc   bool // the body travels as a thrift struct (ThriftDoc.Blob)
 }
 
 func (d *dataRun) rstr(n int, alphabet string) string {
@@ -168,7 +171,11 @@ func (w *wireMsg) build() (socket.Message, error) {
 		m.Meta().Add(kv[0], kv[1])
 	}
 	m.SetBodyCodec(w.codec)
-	m.SetBody(append([]byte(nil), w.body...))
+	if w.tdoc {
+		m.SetBody(&ThriftDoc{Author: "doc", Nums: []int64{int64(len(w.body))}, Blob: append([]byte(nil), w.body...)})
+	} else {
+		m.SetBody(append([]byte(nil), w.body...))
+	}
 	if err := m.XferPipe().Append(w.pipe...); err != nil {
 		return nil, err
 	}
@@ -215,6 +222,12 @@ func (w *wireMsg) diff(m socket.Message) []string {
 		d = append(d, fmt.Sprintf("codec=%d", m.BodyCodec()))
 	}
 	bp, _ := m.Body().(*[]byte)
+	if td, ok := m.Body().(*ThriftDoc); ok && w.tdoc {
+		if td.Author != "doc" || len(td.Nums) != 1 || td.Nums[0] != int64(len(w.body)) {
+			d = append(d, "body=doc")
+		}
+		bp = &td.Blob
+	}
 	if bp == nil {
 		if len(w.body) != 0 {
 			d = append(d, "body=nil")
@@ -229,7 +242,17 @@ func (w *wireMsg) diff(m socket.Message) []string {
 }
 
 func newRecvMsg() socket.Message {
-	return socket.NewMessage(socket.WithNewBody(func(socket.Header) interface{} { return new([]byte) }))
+	return socket.NewMessage(socket.WithNewBody(newRecvBody))
+}
+
+// recvThrift makes the receiving side allocate thrift documents instead of byte slices (thrift struct protocol).
+var recvThrift bool
+
+func newRecvBody(socket.Header) interface{} {
+	if recvThrift {
+		return new(ThriftDoc)
+	}
+	return new([]byte)
 }
 
 func (d *dataRun) wireCase(c DataCase, out map[string]interface{}) {
@@ -239,6 +262,44 @@ func (d *dataRun) wireCase(c DataCase, out map[string]interface{}) {
 	streamed := !strings.HasPrefix(pname, "ws")
 	V := d.concretize(vec)
 	D := d.concretize(map[string]interface{}{"seq": "one", "mtype": "1", "method": "short", "status": "nil", "meta": "none", "codec": "j", "body": "b1", "pipe": "none"})
+	recvThrift = pname == "thriftstruct"
+	defer func() { recvThrift = false }()
+	if pname == "thriftstruct" {
+		// the protocol's only body codec is thrift: the default codec class stands for it
+		for _, wm := range []*wireMsg{&V, &D} {
+			wm.tdoc = true
+			if wm.codec == 'j' {
+				wm.codec = 't'
+			}
+		}
+	}
+	// the fields this protocol is documented to reproduce for this vector (from the specification)
+	compare := map[string]bool{}
+	if cl, ok := c["compare"].([]interface{}); ok {
+		for _, f := range cl {
+			if fs, ok := f.(string); ok {
+				compare[fs] = true
+			}
+		}
+	}
+	keep := func(ds []string) []string {
+		if len(compare) == 0 {
+			return ds
+		}
+		var o []string
+		for _, x := range ds {
+			name := x
+			for _, f := range []string{"seq", "mtype", "method", "status", "meta", "codec", "body", "pipe"} {
+				if strings.HasPrefix(x, f) {
+					name = f
+				}
+			}
+			if compare[name] {
+				o = append(o, x)
+			}
+		}
+		return o
+	}
 	msgs := []*wireMsg{&D, &V, &D}
 	var chunks []int
 	switch c.S("chunk") {
@@ -276,7 +337,7 @@ func (d *dataRun) wireCase(c DataCase, out map[string]interface{}) {
 				out["err"] = fmt.Sprintf("unpack frame %d: %v", i, err)
 				return
 			}
-			for _, x := range wm.diff(m) {
+			for _, x := range keep(wm.diff(m)) {
 				diffs = append(diffs, fmt.Sprintf("f%d:%s", i, x))
 			}
 			usizes = append(usizes, m.Size())
@@ -285,6 +346,12 @@ func (d *dataRun) wireCase(c DataCase, out map[string]interface{}) {
 		// frame before (every field set, three metadata pairs): nothing of an earlier frame may show
 		P := d.concretize(map[string]interface{}{"seq": "max", "mtype": "3", "method": "len255", "status": "full", "meta": "none", "codec": "p", "body": "b255", "pipe": "none"})
 		P.meta = [][2]string{{"p1", "primer-value-1"}, {"p2", "primer-value-2"}, {"p3", "primer-value-3"}}
+		switch pname {
+		case "thriftstruct":
+			P.tdoc, P.codec = true, 't'
+		case "http":
+			P.mtype = 2 // the protocol has no push frames
+		}
 		rm := newRecvMsg()
 		var pw bytes.Buffer
 		if pm, err := P.build(); err == nil && pf(&rwBuf{r: bytes.NewReader(nil), w: &pw}).Pack(pm) == nil {
@@ -292,12 +359,12 @@ func (d *dataRun) wireCase(c DataCase, out map[string]interface{}) {
 		}
 		up2 := pf(&rwBuf{r: &chunkReader{b: append([]byte(nil), stream...), sizes: chunks}, w: &bytes.Buffer{}})
 		for i, wm := range msgs {
-			rm.Reset(socket.WithNewBody(func(socket.Header) interface{} { return new([]byte) }))
+			rm.Reset(socket.WithNewBody(newRecvBody))
 			if err := up2.Unpack(rm); err != nil {
 				out["err"] = fmt.Sprintf("unpack frame %d into a reused message: %v", i, err)
 				return
 			}
-			for _, x := range wm.diff(rm) {
+			for _, x := range keep(wm.diff(rm)) {
 				diffs = append(diffs, fmt.Sprintf("reused:f%d:%s", i, x))
 			}
 		}
